@@ -86,6 +86,12 @@ def cases(tier, seed):
                     cs.append(Case("setup-%d" % n, ["bb.set %s %d %d %d" % (mem, size, used, off), "bb.atmost 9"], ("setup",)))
                     n += 1
     cs.append(Case("null-rewind", ["bb.null", "bb.rewind"], ("setup",)))
+    # the convenience set-ups: an empty buffer over the memory / the memory as a completely filled buffer
+    for size in range(0, 4):
+        for mem in ("null", "".join("%02x" % (0xb0 + i) for i in range(max(size, 1)))):
+            cs.append(Case("space-%d" % n, ["bb.space %s %d" % (mem, size), "bb.add 0102", "bb.atmost 9"], ("setup",)))
+            cs.append(Case("use-%d" % n, ["bb.use %s %d" % (mem, size), "bb.atmost 2", "bb.add 01", "bb.rewind", "bb.add 02", "bb.atmost 9"], ("setup",)))
+            n += 1
     # pre-filled set-up followed by every op
     for size in (2, 3):
         for used in range(0, size + 1):
